@@ -189,6 +189,35 @@ func genC14(t *rapid.T) *c14Case {
 			c.Dst = &h.Tree{}
 		}
 	}
+	// steered scenario: the first wildcard match is a symlink to an outside directory and
+	// the destination does not exist yet, so the first match creates it as that symlink;
+	// the following matches must not be written through it
+	if rapid.IntRange(0, 7).Draw(t, "firstmatchlink") == 0 {
+		tg := rapid.SampledFrom([]string{"/outside/dir", "../outside/dir", "../../outside/dir"}).Draw(t, "fm.target")
+		f := rapid.SampledFrom([]string{"a", "c", "inner"}).Draw(t, "fm.f")
+		src := &h.Tree{Nodes: []h.Node{
+			{Path: "m1", Kind: h.KSymlink, Target: tg},
+			{Path: f, Kind: h.KFile, Perm: 0o600},
+		}}
+		// the later matches: files and directories in a drawn order
+		for _, m := range []string{"m2", "m3"} {
+			if rapid.Bool().Draw(t, "fm.isdir."+m) {
+				src.Nodes = append(src.Nodes, h.Node{Path: m, Kind: h.KDir, Perm: 0o755}, h.Node{Path: m + "/" + f, Kind: h.KFile, Perm: 0o644})
+			} else {
+				src.Nodes = append(src.Nodes, h.Node{Path: m, Kind: h.KFile, Perm: 0o644})
+			}
+		}
+		src.Normalize()
+		c.Src = src
+		c.SrcArg = rapid.SampledFrom([]string{"m*", "m?", "m[1-3]"}).Draw(t, "fm.glob")
+		c.DstArg = rapid.SampledFrom([]string{"new", "new/sub", "n1/n2/x"}).Draw(t, "fm.dst")
+		c.Opts.Wildcards = true
+		c.Opts.DirContents = rapid.IntRange(0, 3).Draw(t, "fm.dircontents") != 0
+		c.Opts.AlwaysReplace = rapid.Bool().Draw(t, "fm.replace")
+		c.Include, c.Exclude = nil, nil
+		c.Follow = false
+		c.Dst = &h.Tree{}
+	}
 	// metadata options: applied with chmod/chown/utimes calls that must not follow links
 	if rapid.IntRange(0, 2).Draw(t, "modeopt") == 0 {
 		m := rapid.SampledFrom([]int{0o700, 0o644, 0o4755, 0}).Draw(t, "mode")
